@@ -18,6 +18,11 @@ mod number_tracker;
 pub mod partial;
 #[cfg(feature = "serde")]
 mod serde;
+#[cfg(exmex_verif)]
+pub mod verif_exports {
+    pub use super::eval_binary;
+    pub use super::number_tracker::NumberTracker;
+}
 
 /// Expressions implementing this trait can be parsed from stings,
 /// evaluated for specific variable values, and unparsed, i.e.,
@@ -131,6 +136,10 @@ where
 
         let num_1_idx = idx - shift_left;
         let num_2_idx = idx + shift_right;
+        #[cfg(exmex_verif)]
+        crate::verif::emit(|| {
+            format!("{{\"ev\":\"reduce\",\"idx\":{idx},\"n1\":{num_1_idx},\"n2\":{num_2_idx}}}")
+        });
 
         numbers[num_1_idx] = binary_ops[idx].apply(
             mem::take(&mut numbers[num_1_idx]),
